@@ -1,5 +1,6 @@
 import NucsProofs.Propagators.Affine
 import NucsProofs.Propagators.AffineLeq
+import NucsProofs.Propagators.AlldiffCorrectFinal
 import NucsProofs.Propagators.AlldifferentReg
 import NucsProofs.Propagators.CountEq
 import NucsProofs.Propagators.Counting
@@ -26,6 +27,7 @@ namespace Nucs
 theorem C14_and : Exact .and := exact_and
 theorem C14_affineGeq : Exact .affineGeq := exact_affineGeq
 theorem C14_affineLeq : Exact .affineLeq := exact_affineLeq
+theorem C14_alldifferent : Exact .alldifferent := exact_alldifferent
 theorem C14_countEq : Exact .countEq := exact_countEq
 theorem C14_elementIv : Exact .elementIv := exact_elementIv
 theorem C14_elementLiv : Exact .elementLiv := exact_elementLiv
@@ -41,7 +43,7 @@ theorem C14_relation : Exact .relation := exact_relation
 
 /-- algorithms for which `Exact` is stated (Spec.lean) but not proved here: validated by the
     correspondence and the brute-force oracle only -/
-def C14_unproved : List Alg := [.alldifferent, .gcc]
+def C14_unproved : List Alg := [.gcc]
 
 /-- affine_eq returns exactly the box obtained by ONE round of interval reasoning on the input bounds
     (it is documented as not bound-consistent; `not_exact_affineEq` shows it indeed is not) -/
@@ -56,5 +58,15 @@ theorem C14_affineEq_oneRound (cs : List Int) (a : Int) (B : Box) :
     ((affineEqCore cs a B).1 ≠ .inc → affineEqCore cs a B = (.cons, eqRound cs a B)) ∧
     ((affineEqCore cs a B).1 = .inc → (affineEqCore cs a B).2 = B) := affineEq_oneRound cs a B
 theorem C14_affineEq_not_exact : ¬ Exact .affineEq := not_exact_affineEq
+
+/-- the registered model of alldifferent (the port behind a result checker) IS the ported Python algorithm: on every
+    non-empty box of non-empty domains the checker accepts the port's answer and the fallback is never used; hence
+    `C05/C06/C14_alldifferent` are theorems about the line-by-line port of nucs/propagators/alldifferent_propagator.py -/
+theorem C14_alldifferent_is_port (ps : List Int) (B : Box) (hne : B ≠ []) (hdom : ∀ d ∈ B, d.1 ≤ d.2) :
+    ∃ st B', alldifferent ps B = .ok (st, B') ∧
+      alldifferentC ps B = .ok (st, if st = .inc then B else B') := alldifferentC_is_port ps B hne hdom
+/-- a non-failing answer of the port satisfies Hall's condition and is pruned with respect to every Hall interval -/
+theorem C14_alldifferent_hall (ps : List Int) (B : Box) (hne : B ≠ []) (hdom : ∀ d ∈ B, d.1 ≤ d.2)
+    (B' : Box) (h : alldifferent ps B = .ok (.cons, B')) : HallOK B' ∧ HallPruned B' := port_hall_pruned ps B hne hdom B' h
 
 end Nucs
